@@ -15,8 +15,11 @@ Definition cc_data (A : mat) (sq b : vec) : list obs := combine (combine A (map 
 Record chi2res := { c_acoeff : vec; c_chi2 : Q; c_yfit : vec; c_dof : Z; c_covar : mat; c_var : vec }.
 
 (* chi2 as the code computes it: sum ((mmatrix . acoeff) - bvec*sqivar)^2 *)
-Definition cc_chi2 (A : mat) (sq b a : vec) : Q :=
-  vsum (map2 (fun r sb => sqr (fst sb * dot r a - snd sb * fst sb)) A (combine sq b)).
+Fixpoint cc_chi2 (A : mat) (sq b a : vec) : Q :=
+  match A, sq, b with
+  | r :: A', s :: sq', y :: b' => Qred (sqr (s * dotr r a - y * s) + cc_chi2 A' sq' b' a)
+  | _, _, _ => 0
+  end.
 
 Definition cc_dof (sq : vec) (nstar : nat) : Z :=
   (Z.of_nat (length (filter (fun s => Qlt_bool 0 s) sq)) - Z.of_nat nstar)%Z.
@@ -146,16 +149,16 @@ Definition chi2_clauses (b sq : vec) (A : mat) (ia : vec) (ichi2 : Q) (iyfit : v
   let D := cc_data A sq b in
   [ grad_small tol9 nstar D ia                                   (* 0 weighted normal equations *)
   ; vclose (qclose_rel tol9) iyfit (mat_vec A ia)                (* 1 fitted values *)
-  ; qclose_rel tol8 ichi2 (chi2 D ia)                            (* 2 chi-square of the returned coefficients *)
+  ; qclose_rel tol8 ichi2 (chi2r D ia)                           (* 2 chi-square of the returned coefficients *)
   ; Z.eqb idof (cc_dof sq nstar)                                 (* 3 degrees of freedom *)
   ; inverse_ok tol8 icovar (normal_mat nstar D)                  (* 4 covariance = inverse of A^T W A *)
   ; meq_bool icovar (transpose icovar)                           (* 5 symmetric *)
   ; veq_bool ivar (diag icovar)                                  (* 6 variances = diagonal *)
     (* 7 the chi-square of the returned coefficients is within 1e-6 (relative) of the PROVEN minimum
-         (wls_solve_optimal): decides optimality also for badly scaled systems, where a truncated
+         (wls_solve_optimal; chi2r = chi2 by chi2r_correct): decides optimality also for badly scaled systems, where a truncated
          pseudo-inverse is off by far more than rounding *)
   ; match wls_solve nstar D with
-    | Some xopt => Qle_bool (chi2 D ia) (chi2 D xopt * (1 + tol6) + tol6 * tol6)
+    | Some xopt => Qle_bool (chi2r D ia) (chi2r D xopt * (1 + tol6) + tol6 * tol6)
     | None => false
     end ].
 Definition chi2_ok (b sq : vec) (A : mat) (ia : vec) (ichi2 : Q) (iyfit : vec) (idof : Z) (icovar : mat) (ivar : vec) : bool :=
